@@ -1,14 +1,2 @@
 HOOK_COMMITS = []  # no hook commits so far: all instrumentation is overlaid from /verif/harness
 NOT_APPLICABLE_REASON = {}
-META = {
-    "C20": {
-        "technique": "runtime monitoring: exhaustive small-scope execution of the real token functions against an independent canonical-form model; order-law monitor over all pairs/triples; generated-input parser oracle",
-        "level_text": "Exhaustive execution over all tokens with components <= N (plus 64-bit extremes) of String/parse/JSON round trips against an independent model of the documented canonical form, all pairs/triples for the order laws, and 10^5..10^6 generated strings against an independent decimal reader. Exploration, exhaustive in the stated small scope.",
-        "level_note": "Trusted: the harness's 20-line model of the canonical token form and decimal reader; Go runtime. Bounded by N; emitted-order agreement is checked on real changes responses in the feed part.",
-    },
-    "C07": {
-        "technique": "runtime monitoring: sequence-ledger conservation/uniqueness oracle over the recorded storage-operation log (H1), step-scheduler enumeration of allocator interleavings, forced CAS-loss retry chains with every final outcome, fault injection, race detector on stress workloads, bounded feed-progress check",
-        "level_text": "Real sequenceAllocators (1..3 'nodes' on one counter) and a real database are driven with generated scripts; a wrapping bucket records every storage operation. After quiescence every number the counter handed out must be returned/stored exactly once or published unused, nextSequenceGreaterThan must exceed its floor, no two versions share a number, and the change cache must move past the counter. Interleavings of storage steps are enumerated depth-first under a preemption bound and sampled randomly; CAS losses are forced at every retry point with outcomes success/rejection/cancel/error/timeout/conflict. Exploration: held on the executions produced.",
-        "level_note": "Trusted: the harness ledger, the VerifBucket wrapper, rosmar as the store. Storage faults are injected on the counter increment and on document/principal writes, not on the unused-sequence publication itself (documented fallback to skipped-sequence handling). Bounded universes (<= 3 allocators, <= 7 ops each, <= 5 forced CAS losses).",
-    },
-}
